@@ -593,3 +593,33 @@ v("C15", "silent-payload-add-guard-var", "silent", P,
   "        collecting = Metrics.isCollecting()\n        if collecting:\n            Metrics.incCount(\"Compute\", \"payload_add\", 1)\n\n        return Payload(ans)")
 v("C15", "silent-or-extra-metrics-local", "silent", I,
   "                a_trace = \"union_\" + a_label\n", "                prefix_ = \"union_\"\n                a_trace = prefix_ + a_label\n")
+
+# ---------------------------------------------------------------- C16
+v("C16", "row-drops-pos", "fire", M,
+  "        data = iteration + point + [pos]", "        data = iteration + point", "C16.R1")
+v("C16", "row-short-iteration", "fire", M,
+  "        iteration = iteration_num[:(i + 1)]", "        iteration = iteration_num[:i]", "C16.R1")
+v("C16", "header-extra-column", "fire", M,
+  "            cls.loop_order[:end] + [\"fiber_pos\"]", "            cls.loop_order[:end] + [\"fiber_pos\", \"extra\"]", "C16.R1")
+v("C16", "writeTrace-overwrites", "fire", M,
+  "        with open(cls.prefix + \"-\" + rank + \"-\" + type_ + \".csv\", \"a\") as f:",
+  "        with open(cls.prefix + \"-\" + rank + \"-\" + type_ + \".csv\", \"w\") as f:", "C16.R2")
+v("C16", "writeTrace-no-reset", "fire", M,
+  "        cls.traces[rank][type_] = ([], mem_trace, True)\n", "        cls.traces[rank][type_] = (file_trace, mem_trace, True)\n", "C16.R2")
+v("C16", "endCollect-clears-before-flush", "fire", M,
+  "        for rank, dicts in cls.traces.items():\n            for type_, (file_trace, mem_trace, _) in dicts.items():\n                if file_trace is not None:\n                    cls._writeTrace(rank, type_)",
+  "        for rank, dicts in cls.traces.items():\n            for type_, (file_trace, mem_trace, _) in dicts.items():\n                if file_trace is not None and len(file_trace) > 1:\n                    cls._writeTrace(rank, type_)", "C16.R2")
+v("C16", "addUse-mem-gets-copy-without-pos", "fire", M,
+  "        if mem_trace is not None:\n            mem_trace.append(data)\n\n        # If we are at the limit",
+  "        if mem_trace is not None:\n            mem_trace.append(data[:-1])\n\n        # If we are at the limit", "C16.R2")
+v("C16", "addUse-flush-greater", "fire", M,
+  "        if file_trace is not None and len(file_trace) == cls.num_cached_uses:",
+  "        if file_trace is not None and len(file_trace) > cls.num_cached_uses + 7:", "C16.R2")
+v("C16", "iterRange-position-is-ordinal", "fire", I,
+  "                if is_collecting and tick:\n                    Metrics.addUse(rank, coord, i + j)",
+  "                if is_collecting and tick:\n                    Metrics.addUse(rank, coord, j)", "C16.R3")
+v("C16", "getPayloadRef-position-constant-drift", "fire", F,
+  "            Metrics.addUse(self.getRankAttrs().getId(), coords[0], index, type_=trace)\n\n        if len(coords) > 1:\n            # Recurse to the next level's fiber\n            assert Payload.contains(payload, Fiber), \"Too many coordinates\"",
+  "            Metrics.addUse(self.getRankAttrs().getId(), coords[0], len(self.coords), type_=trace)\n\n        if len(coords) > 1:\n            # Recurse to the next level's fiber\n            assert Payload.contains(payload, Fiber), \"Too many coordinates\"", "C16.R3")
+v("C16", "silent-addUse-temp-row", "silent", M,
+  "        data = iteration + point + [pos]", "        tail = [pos]\n        data = iteration + point + tail")
